@@ -79,6 +79,11 @@ func buildC07(seed int64, thorough bool) (*c07World, error) {
 				v.Rows[mi][1] = fmt.Sprintf("v%d", len(specs))
 			}
 			specs = append(specs, v)
+		case 1: // the base with a renamed column: a new table made entirely of blocks the base already has
+			v := cloneSpec(base)
+			v.Columns = append([]string{}, base.Columns...)
+			v.Columns[1] = base.Columns[1] + fmt.Sprintf("_r%d", len(specs))
+			specs = append(specs, v)
 		default:
 			t := GenTable(r, 1+r.Intn(3), 1+r.Intn(30), []int{0}, 0)
 			if r.Intn(5) == 0 {
